@@ -1972,3 +1972,14 @@ PROPS["C05"]["level_text"] += (
 PROPS["C04"]["partial"] = [x.replace("for the default build it remains a hypothesis (C08 covers short literals)",
     "for the default build it is discharged for floats that print as short literals (c04_default_short_floats, from RyuShortest and "
     "c08_exact_short) and remains a hypothesis for the others") for x in PROPS["C04"]["partial"]]
+
+# ---- generator / oracle upgrades after the fourth round of seeded changes (branch wip-h1): C01-8, C03-8, C11-8, C12-8
+PROPS["C01"]["configs"] = dict(quick=list(PROPS["C01"]["configs"]["quick"]) + ["fr"], thorough=list(PROPS["C01"]["configs"]["thorough"]))
+LONG_NEARMISS_RULE = (" Tag long-nearmiss / long-nearmiss-ok (c01::long_nearmiss; C01, C02): the number grammar on literals whose integer part has left the 64-bit fast path - "
+                      "ten fixed integer parts (19-40 digits, both sides of u64::MAX) and 2 (thorough 6) random ones of 19, 20, 21, 25 and 40 digits, with and without '-', "
+                      "followed by thirty continuations the grammar does not admit (. .e2 .E-3 e e+ e- .5e .5e+ .-1 .+1 .e .E+10 ..5 .5. .5e2. e2e2 e.5 e+-2 ...: a point "
+                      "without a fraction digit, an exponent marker without a digit, a misplaced sign, a second point / exponent) and by twelve it does (the accepted "
+                      "neighbours), bare and in nine array / object / whitespace contexts (quick tier: one random integer part per length, bare and two rotating contexts - one under arbitrary_precision / raw_value).")
+PROPS["C01"]["rule"] += LONG_NEARMISS_RULE + (" Quick tier also under float_roundtrip (parse_long_integer / parse_long_decimal / parse_long_exponent): every number family in "
+                      "full; the generic families are subsampled there (string-literal family skipped, three-token sequences one shard of eight, 1000 documents, 60 random range-band mantissas).")
+PROPS["C02"]["rule"] += LONG_NEARMISS_RULE
